@@ -1,5 +1,6 @@
 import Percival.Proofs.AllocFail
 import Percival.Proofs.AFUTop
+import Percival.Proofs.AFUAcct
 /-!
 # C14 — allocation failure is reported, leaves objects unchanged and leaks nothing (proof-level part)
 
@@ -364,8 +365,7 @@ example : let w1 := (stepR wGrant (.read 5)).2
 failures at any request, under any oracle — releasing the objects with their normal free / cancel calls
 (`teardown`) leaves no block owned by an object, no object, nothing registered (no immediate event, no timer, no
 descriptor), no double free; the pools' exit handlers then empty the cache, and what the allocator still counts as
-live belongs to the event layer alone (`evLive`; released by its own exit handlers, `EvReg.shutdown`: run in
-lock-step with the C at `end`). -/
+live belongs to the event layer alone (`evLive`) — which its own exit handlers release: `upper_exit_handlers_free_everything`. -/
 theorem upper_leaks_nothing (m : Mem) (hm : m.live = 0) (ops : List Op) :
     let w := teardown (run { m := m } ops)
     Inv w ∧ w.live = [] ∧ tables w = ⟨[], [], [], [], [], [], []⟩ ∧
@@ -381,6 +381,23 @@ theorem upper_leaks_nothing (m : Mem) (hm : m.live = 0) (ops : List Op) :
   simp only [forgetDyn] at ha
   rw [hc, hl, h1] at ha
   simpa using ha
+
+/-- **(c, completed) After the objects are released, the exit handlers free everything the library ever allocated**:
+from the empty world, after any sequence of calls under any oracle, `teardown` followed by all `atexit` handlers
+(both cookie pools, `events_timer_shutdown`, `events_network_shutdown`, the event-record and queue-node pools)
+leaves the allocator's count of live library blocks — what the harness' wrapper counts and prints as `end live=` — at
+exactly 0.  (The event layer's storage is counted exactly by `EvRegAcct.evBlocks`: cached pool objects and stack
+arrays, 2 blocks per immediate event, 3 per timer, 1 per descriptor registration, the timer queue, the socket list and
+the pollfd array; every event-layer operation changes `Mem.live` by exactly the change of that count.) -/
+theorem upper_exit_handlers_free_everything (m : Mem) (hm : m.live = 0) (ops : List Op) :
+    (atexitAll (teardown (run { m := m } ops))).m.live = 0 ∧
+    (atexitAll (teardown (run { m := m } ops))).live = [] ∧ (atexitAll (teardown (run { m := m } ops))).cache = [] :=
+  run_teardown_atexit_no_leak m hm ops
+
+/-- the same seven calls as below, then everything released and the exit handlers run: 18 library blocks were live -/
+example : (run wThird [.read 5, .read 5, .nbrInit 6, .nbrWait 6 100, .nbwInit 7, .nbwWrite 11 10, .http [.success] 47 9]).m.live = 18 ∧
+    (atexitAll (teardown (run wThird [.read 5, .read 5, .nbrInit 6, .nbrWait 6 100, .nbwInit 7, .nbwWrite 11 10, .http [.success] 47 9]))).m.live = 0 := by
+  decide
 
 /-- a read, a buffered reader waiting for 100 bytes, a writer with queued data and an HTTP request, under the
 oracle that refuses the third request: six objects' worth of blocks before, nothing after -/
